@@ -47,6 +47,8 @@ structure WFEnv (e : Env) : Prop where
   prov : ∀ r i, e.info r = some i → r ∈ e.pkgPlugins i.pkg
   /-- a schema is listed by one package only -/
   disj : ∀ pk pk' r, r ∈ e.pkgPlugins pk → r ∈ e.pkgPlugins pk' → pk = pk'
+  /-- … and only once -/
+  plugins_nodup : ∀ pk, (e.pkgPlugins pk).Nodup
 
 theorem info_ref {e : Env} {r : SRef} {i : SInfo} (h : e.info r = some i) : i.ref = r := by
   unfold Env.info at h
@@ -314,7 +316,8 @@ structure SchemaCache (e : Env) (U : SRef → Prop) (c : Caches) : Prop where
   index : IndexOK e U c.parents c.children
   pkginfos : ∀ pk pl, alGet c.pkginfos pk = some pl ↔ (RegP e U pk ∧ pl = e.pkgPlugins pk)
   providers : ∀ r ps, alGet c.providers r = some ps ↔ ∃ pk, ps = [pk] ∧ RegP e U pk ∧ r ∈ e.pkgPlugins pk
-  used_dom : ∀ pk, (alGet c.used pk).isSome ↔ RegP e U pk
+  /-- (`_used` keeps a stale empty entry for a package that was unregistered) -/
+  used_dom : ∀ pk, RegP e U pk → (alGet c.used pk).isSome
   used_val : ∀ pk rs, alGet c.used pk = some rs → rs.Nodup ∧
     ∀ r, r ∈ rs ↔ (U r ∧ ∃ i, e.info r = some i ∧ i.pkg = pk)
 
@@ -671,11 +674,11 @@ theorem schemaCache_regOld {e : Env} (he : WFEnv e) {U : SRef → Prop} {c : Cac
   · exact upcAdd_index he hi hs.index
   · intro pk pl; simp only [regCachesOld, hregiff]; exact hs.pkginfos pk pl
   · intro r ps; simp only [regCachesOld, hregiff]; exact hs.providers r ps
-  · intro pk
-    simp only [regCachesOld, hregiff, alGet_alSet]
+  · intro pk hpk'
+    simp only [regCachesOld, alGet_alSet]
     by_cases hpk : pk = i.pkg
-    · subst hpk; simp [hreg]
-    · simp [hpk, hs.used_dom pk]
+    · subst hpk; simp
+    · simp only [hpk, if_false]; exact hs.used_dom pk ((hregiff pk).mp hpk')
   · intro pk rs hrs
     simp only [regCachesOld, alGet_alSet] at hrs
     by_cases hpk : pk = i.pkg
@@ -739,11 +742,14 @@ theorem schemaCache_regNew {e : Env} (he : WFEnv e) {U : SRef → Prop} {c : Cac
       exact eq_comm
     · simp only [hpk, if_false, or_false]; exact hs.pkginfos pk pl
   · exact hprov
-  · intro pk
-    simp only [regCachesNew, alGet_alSet, RegP_add hi]
+  · intro pk hpk'
+    simp only [regCachesNew, alGet_alSet]
     by_cases hpk : pk = i.pkg
     · subst hpk; simp
-    · simp [hpk, hs.used_dom pk]
+    · simp only [hpk, if_false]
+      rcases (RegP_add hi pk).mp hpk' with h | h
+      · exact hs.used_dom pk h
+      · exact absurd h hpk
   · intro pk rs hrs
     simp only [regCachesNew, alGet_alSet] at hrs
     by_cases hpk : pk = i.pkg
@@ -843,7 +849,7 @@ theorem schemaRegister_spec {e : Env} (he : WFEnv e) {L : Path → SRef → Nat 
     · -- the providing package is registered already
       have hp : alGet s.c.providers ref = some [i.pkg] :=
         (hs.providers ref [i.pkg]).mpr ⟨i.pkg, rfl, hreg, he.prov ref i hi⟩
-      obtain ⟨cur, hu⟩ := alGet_some_of_isSome ((hs.used_dom i.pkg).mpr hreg)
+      obtain ⟨cur, hu⟩ := alGet_some_of_isSome (hs.used_dom i.pkg hreg)
       refine ⟨⟨t2, regCachesOld s.c ref i cur, s.next⟩, schemaRegister_old e ref s i t1 t2 cur hnmem hi h1 h2 hp hu,
         ?_, schemaCache_regOld he hi hs hreg hu, rfl, ?_⟩
       · refine tocRaw_register (b := false) hi hr hU (by simp [hreg]) ?_
@@ -911,5 +917,1321 @@ theorem schemaRegister_spec {e : Env} (he : WFEnv e) {L : Path → SRef → Nat 
                   · simp [hb, ha'.1, ha'.2]
       · have step3 := step12.trans (TocStep.of_create (s := ⟨t2, s.c, s.next⟩) h3 (by simp [pkgPath]) (regCachesNew e s.c ref i))
         exact ⟨step3.keys, step3.pclosed, step3.frame, rfl⟩
+
+theorem unchanged_of {o : Option Node} {c1 c2 : Prop} [Decidable c1] [Decidable c2] {a b : Option Node}
+    (h1 : ¬ c1) (h2 : ¬ c2) :
+    (if c1 then a else match o with | some x => some x | none => if c2 then b else none) = o := by
+  rw [if_neg h1]
+  cases o with
+  | none => simp [h2]
+  | some x => rfl
+
+/-- the link dataset written by `TOCLinks.register` -/
+theorem tocRaw_addLink {e : Env} {L : Path → SRef → Nat → Prop} {U : SRef → Prop} {t t' : Tree}
+    {ref : SRef} {u : Nat} {p0 : Path} (hr : TocRaw e L U t) (hfresh : ¬ ∃ p r, L p r u)
+    (h : rawCreate t (linkPath ref u) (.ds (.target p0)) = .ok t') :
+    TocRaw e (fun p r u' => L p r u' ∨ (p = p0 ∧ r = ref ∧ u' = u)) U t' := by
+  have hg : ∀ q, q ≠ [] → get? t' q =
+      if q = linkPath ref u then some (.ds (.target p0))
+      else match get? t q with
+        | some x => some x
+        | none => if q = linksP ∨ q = linkDir ref then some .grp else none := by
+    intro q hq
+    rw [rawCreate_get? h q hq]
+    by_cases h1 : q = linkPath ref u
+    · simp [h1]
+    · simp only [h1, if_false]
+      cases hx : get? t q with
+      | some x => rfl
+      | none =>
+        have hroot := hr.root
+        have hq0 : q ≠ [.toc] := by rintro rfl; simp only [tocP] at hroot; rw [hroot] at hx; cases hx
+        simp only [linkPath, isMid, List.nil_append, List.cons_append, Bool.or_false, Bool.or_eq_true, beq_iff_eq, linksP, linkDir, hq0, false_or]
+        by_cases hc : q = [Key.toc, Key.links] ∨ q = [Key.toc, Key.links, Key.ep ref] <;> simp [hc]
+  have hL' : ∃ p r u', L p r u' ∨ (p = p0 ∧ r = ref ∧ u' = u) := ⟨p0, ref, u, Or.inr ⟨rfl, rfl, rfl⟩⟩
+  constructor
+  · rw [hg _ (by simp [tocP])]
+    have := hr.root; simp only [tocP] at this
+    simp [tocP, linkPath, this]
+  · rw [hg _ (by simp [versionP])]
+    have := hr.ver; simp only [versionP] at this
+    simp [versionP, linkPath, this]
+  · rw [hg _ (by simp [uuidP])]
+    have := hr.uid; simp only [uuidP] at this
+    simp [uuidP, linkPath, this]
+  · refine Holds.intro_some ?_ hL'
+    rw [hg _ (by simp [linksP])]
+    simp only [linksP, linkPath, linkDir]
+    rcases hx : get? t [.toc, .links] with _ | x
+    · simp
+    · have := hr.links.not_ds
+      simp only [linksP, hx] at this
+      cases x with
+      | grp => simp
+      | ds v => exact absurd rfl (this v)
+  · intro r
+    by_cases hrr : r = ref
+    · subst hrr
+      refine Holds.intro_some ?_ ⟨p0, u, Or.inr ⟨rfl, rfl, rfl⟩⟩
+      rw [hg _ (by simp [linkDir])]
+      simp only [linksP, linkPath, linkDir]
+      rcases hx : get? t [.toc, .links, .ep r] with _ | x
+      · simp
+      · have := (hr.ldir r).not_ds
+        simp only [linkDir, hx] at this
+        cases x with
+        | grp => simp
+        | ds v => exact absurd rfl (this v)
+    · refine (hr.ldir r).congr ?_ ?_
+      · rw [hg _ (by simp [linkDir])]
+        exact unchanged_of (by simp [linkDir, linkPath]) (by simp [linkDir, linksP, hrr])
+      · constructor
+        · rintro ⟨p, u', h | ⟨-, h, -⟩⟩
+          · exact ⟨p, u', h⟩
+          · exact absurd h hrr
+        · rintro ⟨p, u', h⟩; exact ⟨p, u', Or.inl h⟩
+  · rintro p r u' (hL | ⟨rfl, rfl, rfl⟩)
+    · rw [hg _ (by simp [linkPath])]
+      have hne : ¬ (r = ref ∧ u' = u) := by
+        rintro ⟨rfl, rfl⟩; exact hfresh ⟨p, r, hL⟩
+      have := hr.link_some p r u' hL
+      simp only [linkPath] at this
+      simp [linkPath, this, hne]
+    · rw [hg _ (by simp [linkPath])]; simp
+  · intro r u' hno
+    have hne : ¬ (r = ref ∧ u' = u) := by
+      rintro ⟨rfl, rfl⟩; exact hno ⟨p0, Or.inr ⟨rfl, rfl, rfl⟩⟩
+    rw [hg _ (by simp [linkPath])]
+    have := hr.link_none r u' (fun ⟨p, hp⟩ => hno ⟨p, Or.inl hp⟩)
+    simp only [linkPath] at this
+    simp [linkPath, this, hne, linksP, linkDir]
+  · refine hr.schemas.congr ?_ Iff.rfl
+    rw [hg _ (by simp [schemasP])]
+    exact unchanged_of (by simp [schemasP, linkPath]) (by simp [schemasP, linksP, linkDir])
+  · intro r
+    refine (hr.sdir r).congr ?_ Iff.rfl
+    rw [hg _ (by simp [schemaDir])]
+    exact unchanged_of (by simp [schemaDir, linkPath]) (by simp [schemaDir, linksP, linkDir])
+  · intro r
+    refine (hr.json r).congr ?_ Iff.rfl
+    rw [hg _ (by simp [schemaDir])]
+    exact unchanged_of (by simp [schemaDir, linkPath]) (by simp [schemaDir, linksP, linkDir])
+  · intro r
+    refine (hr.compat r).congr ?_ Iff.rfl
+    rw [hg _ (by simp [schemaDir])]
+    exact unchanged_of (by simp [schemaDir, linkPath]) (by simp [schemaDir, linksP, linkDir])
+  · refine hr.packages.congr ?_ Iff.rfl
+    rw [hg _ (by simp [packagesP])]
+    exact unchanged_of (by simp [packagesP, linkPath]) (by simp [packagesP, linksP, linkDir])
+  · intro pk
+    refine (hr.pkg pk).congr ?_ Iff.rfl
+    rw [hg _ (by simp [pkgPath])]
+    exact unchanged_of (by simp [pkgPath, linkPath]) (by simp [pkgPath, linksP, linkDir])
+  · intro rest hne
+    rw [hg _ (by simp)] at hne
+    by_cases h1 : Key.toc :: rest = linkPath ref u
+    · simp only [linkPath, List.cons.injEq, true_and] at h1
+      rw [h1]; exact .link _ _
+    · simp only [h1, if_false] at hne
+      cases hq : get? t (Key.toc :: rest) with
+      | some x => exact hr.shape rest (by rw [hq]; simp)
+      | none =>
+        rw [hq] at hne
+        simp only at hne
+        split_ifs at hne with h4
+        · simp only [linksP, linkDir, List.cons.injEq, true_and] at h4
+          rcases h4 with h4 | h4 <;> rw [h4]
+          · exact .links
+          · exact .linkDir _
+        · exact absurd rfl hne
+
+/-- `TOCLinks.register(obj)` -/
+theorem linkRegister_spec {e : Env} (he : WFEnv e) {L : Path → SRef → Nat → Prop} {U : SRef → Prop}
+    {s : St} {ref : SRef} {i : SInfo} {u : Nat} {p0 : Path} (hi : e.info ref = some i)
+    (hr : TocRaw e L U s.raw) (hs : SchemaCache e U s.c) (hl : LinkCache L s.c)
+    (hfresh : ¬ ∃ p r, L p r u) :
+    ∃ s', linkRegister e ref u p0 s = (.ok (), s') ∧
+      TocRaw e (fun p r u' => L p r u' ∨ (p = p0 ∧ r = ref ∧ u' = u)) (fun r => U r ∨ r = ref) s'.raw ∧
+      SchemaCache e (fun r => U r ∨ r = ref) s'.c ∧
+      LinkCache (fun p r u' => L p r u' ∨ (p = p0 ∧ r = ref ∧ u' = u)) s'.c ∧ TocStep s s' := by
+  obtain ⟨s1, hrun, hr1, hs1, htp, hstep⟩ := schemaRegister_spec he hi hr hs
+  have hnone : get? s1.raw (linkPath ref u) = none := hr1.link_none ref u (fun ⟨p, hp⟩ => hfresh ⟨p, ref, hp⟩)
+  obtain ⟨t2, h2⟩ := rawCreate_ok (t := s1.raw) (p := linkPath ref u) (n := .ds (.target p0))
+    (by simp [linkPath]) hnone (by
+      intro q v hm
+      simp only [linkPath, isMid, List.nil_append, Bool.or_false, Bool.or_eq_true, beq_iff_eq] at hm
+      rcases hm with rfl | rfl | rfl
+      · have := hr1.root; simp only [tocP] at this; rw [this]; exact fun h => by cases h
+      · exact hr1.links.not_ds v
+      · exact (hr1.ldir ref).not_ds v)
+  refine ⟨⟨t2, { s1.c with tocPath := alSet s1.c.tocPath u (linkPath ref u) }, s1.next⟩, ?_,
+    tocRaw_addLink hr1 hfresh h2, ?_, ?_, ?_⟩
+  · simp [linkRegister, hrun, run_liftRaw, h2]
+  · exact ⟨hs1.schemas, hs1.schemas_nodup, hs1.index, hs1.pkginfos, hs1.providers, hs1.used_dom, hs1.used_val⟩
+  · intro u' tp
+    show alGet (alSet s1.c.tocPath u (linkPath ref u)) u' = some tp ↔ _
+    rw [alGet_alSet, htp]
+    by_cases hu : u' = u
+    · subst hu
+      rw [if_pos rfl]
+      constructor
+      · intro h; cases h; exact ⟨p0, ref, Or.inr ⟨rfl, rfl, rfl⟩, rfl⟩
+      · rintro ⟨p, r, hL | ⟨-, rfl, -⟩, rfl⟩
+        · exact absurd ⟨p, r, hL⟩ hfresh
+        · rfl
+    · rw [if_neg hu, hl u' tp]
+      constructor
+      · rintro ⟨p, r, hL, rfl⟩; exact ⟨p, r, Or.inl hL, rfl⟩
+      · rintro ⟨p, r, hL | ⟨-, -, h⟩, rfl⟩
+        · exact ⟨p, r, hL, rfl⟩
+        · exact absurd h hu
+  · exact hstep.trans (TocStep.of_create (s := s1) h2 (by simp [linkPath]) _)
+
+/-- loop invariant of `upcRemove`: `ref` still counts for the ancestors in `rest` -/
+structure IndexRem (e : Env) (U' : SRef → Prop) (ref : SRef) (rest : List SRef)
+    (par chi : List (SRef × List SRef)) : Prop where
+  dom : ∀ P, (alGet chi P).isSome ↔ ((∃ S, U' S ∧ P ∈ ppath e S) ∨ P ∈ rest)
+  domp : ∀ P, (alGet par P).isSome ↔ (alGet chi P).isSome
+  par_val : ∀ P l, alGet par P = some l → l = ppath e P
+  chi_val : ∀ P cs, alGet chi P = some cs → cs.Nodup ∧
+    ∀ S, S ∈ cs ↔ ((U' S ∧ P ∈ ppath e S ∧ S ≠ P) ∨ (S = ref ∧ P ∈ rest ∧ P ≠ ref))
+
+theorem upcRemove_rem (e : Env) (he : WFEnv e) (U' : SRef → Prop) (ref : SRef)
+    (hUref : ¬ U' ref) (hUenv : ∀ r, U' r → ∃ i, e.info r = some i)
+    (schemas : List SRef) (hsch : ∀ r, r ∈ schemas ↔ U' r) :
+    ∀ (rest : List SRef) (par chi : List (SRef × List SRef)),
+      rest.Nodup → IndexRem e U' ref rest par chi →
+      ∃ par' chi', upcRemove ref schemas par chi rest = .ok (par', chi') ∧ IndexRem e U' ref [] par' chi'
+  | [], par, chi, _, hm => ⟨par, chi, rfl, hm⟩
+  | p :: rest, par, chi, hnd, hm => by
+    have hprest : p ∉ rest := (List.nodup_cons.mp hnd).1
+    have hndr : rest.Nodup := (List.nodup_cons.mp hnd).2
+    obtain ⟨cs, hcs⟩ := alGet_some_of_isSome ((hm.dom p).mpr (Or.inr (by simp)))
+    obtain ⟨hcsnd, hcsmem⟩ := hm.chi_val p cs hcs
+    simp only [upcRemove, hcs]
+    -- children[p] after discarding `ref`
+    set cs' := if p ≠ ref then setRemove cs ref else cs with hcs'
+    have hcs'mem : ∀ S, S ∈ cs' ↔ (U' S ∧ p ∈ ppath e S ∧ S ≠ p) := by
+      intro S
+      by_cases hp : p ≠ ref
+      · simp only [hcs', hp, ne_eq, not_false_eq_true, if_true, mem_setRemove, hcsmem S]
+        constructor
+        · rintro ⟨h | ⟨rfl, -, -⟩, hne⟩
+          · exact h
+          · exact absurd rfl hne
+        · intro h; exact ⟨Or.inl h, fun hS => hUref (hS ▸ h.1)⟩
+      · have hp' : p = ref := by simpa using hp
+        simp only [hcs', hp, if_false, hcsmem S]
+        constructor
+        · rintro (h | ⟨-, -, hne⟩)
+          · exact h
+          · exact hne.elim
+        · exact Or.inl
+    have hcs'nd : cs'.Nodup := by
+      rw [hcs']; split_ifs
+      · exact nodup_setRemove hcsnd _
+      · exact hcsnd
+    set chi1 := if p ≠ ref then alSet chi p cs' else chi with hchi1
+    have hchi1_get : ∀ x, alGet chi1 x = if x = p then some cs' else alGet chi x := by
+      intro x
+      by_cases hp : p ≠ ref
+      · simp only [hchi1, hp, ne_eq, not_false_eq_true, if_true, alGet_alSet]
+      · simp only [hchi1, hp, if_false]
+        by_cases hx : x = p
+        · subst hx; simp [hcs, hcs', hp]
+        · simp [hx]
+    -- the index with `p` kept
+    have keep : (∃ S, U' S ∧ p ∈ ppath e S) → IndexRem e U' ref rest par chi1 := by
+      intro hex
+      refine ⟨fun P => ?_, fun P => ?_, hm.par_val, fun P cs0 h0 => ?_⟩
+      · rw [hchi1_get]
+        by_cases hP : P = p
+        · subst hP; simp [hex]
+        · simp only [hP, if_false, hm.dom P, List.mem_cons, false_or]
+      · rw [hchi1_get, hm.domp P]
+        by_cases hP : P = p
+        · subst hP; simp [hcs]
+        · simp [hP]
+      · rw [hchi1_get] at h0
+        by_cases hP : P = p
+        · subst hP
+          simp only [if_true, Option.some.injEq] at h0
+          subst h0
+          refine ⟨hcs'nd, fun S => ?_⟩
+          rw [hcs'mem S]
+          constructor
+          · exact Or.inl
+          · rintro (h | ⟨-, h, -⟩)
+            · exact h
+            · exact absurd h hprest
+        · simp only [hP, if_false] at h0
+          obtain ⟨h1, h2⟩ := hm.chi_val P cs0 h0
+          refine ⟨h1, fun S => ?_⟩
+          rw [h2 S]
+          simp only [List.mem_cons, hP, false_or]
+    -- the index with `p` dropped
+    have drop : (¬ ∃ S, U' S ∧ p ∈ ppath e S) → IndexRem e U' ref rest (alErase par p) (alErase chi1 p) := by
+      intro hnex
+      refine ⟨fun P => ?_, fun P => ?_, fun P l hl => ?_, fun P cs0 h0 => ?_⟩
+      · rw [alGet_alErase, hchi1_get]
+        by_cases hP : P = p
+        · subst hP; simp [hnex, hprest]
+        · simp only [hP, if_false, hm.dom P, List.mem_cons, false_or]
+      · rw [alGet_alErase, alGet_alErase, hchi1_get]
+        by_cases hP : P = p
+        · simp [hP]
+        · simp only [hP, if_false]; exact hm.domp P
+      · rw [alGet_alErase] at hl
+        by_cases hP : P = p
+        · simp [hP] at hl
+        · simp only [hP, if_false] at hl; exact hm.par_val P l hl
+      · rw [alGet_alErase, hchi1_get] at h0
+        by_cases hP : P = p
+        · simp [hP] at h0
+        · simp only [hP, if_false] at h0
+          obtain ⟨h1, h2⟩ := hm.chi_val P cs0 h0
+          refine ⟨h1, fun S => ?_⟩
+          rw [h2 S]
+          simp only [List.mem_cons, hP, false_or]
+    by_cases hpU : p ∈ schemas
+    · -- `p` itself is still in use
+      simp only [hpU, if_true]
+      have hex : ∃ S, U' S ∧ p ∈ ppath e S := by
+        have hU := (hsch p).mp hpU
+        obtain ⟨i, hi⟩ := hUenv p hU
+        exact ⟨p, hU, mem_ppath_self he hi⟩
+      exact upcRemove_rem e he U' ref hUref hUenv schemas hsch rest par chi1 hndr (keep hex)
+    · simp only [hpU, if_false]
+      by_cases hall : cs'.all (fun ch => ch ∉ schemas) = true
+      · -- no used descendant left: the entry goes
+        simp only [hall, if_true]
+        have hparp : (alGet par p).isNone = false := by
+          have := (hm.domp p).mpr (by rw [hcs]; rfl)
+          cases hx : alGet par p <;> simp_all
+        simp only [hparp, Bool.false_eq_true, if_false]
+        have hnex : ¬ ∃ S, U' S ∧ p ∈ ppath e S := by
+          rintro ⟨S, hS, hmem⟩
+          have hne : S ≠ p := by rintro rfl; exact hpU ((hsch S).mpr hS)
+          have hin : S ∈ cs' := (hcs'mem S).mpr ⟨hS, hmem, hne⟩
+          have := List.all_eq_true.mp hall S hin
+          simp only [decide_eq_true_eq] at this
+          exact this ((hsch S).mpr hS)
+        exact upcRemove_rem e he U' ref hUref hUenv schemas hsch rest _ _ hndr (drop hnex)
+      · simp only [hall, if_false, Bool.false_eq_true]
+        have hex : ∃ S, U' S ∧ p ∈ ppath e S := by
+          simp only [List.all_eq_true, decide_eq_true_eq, not_forall, Classical.not_not] at hall
+          obtain ⟨S, hin, hS⟩ := hall
+          exact ⟨S, (hsch S).mp (by simpa using hS), ((hcs'mem S).mp hin).2.1⟩
+        exact upcRemove_rem e he U' ref hUref hUenv schemas hsch rest par chi1 hndr (keep hex)
+
+/-- `_update_parents_children(ref, None)` turns the index for `U` into the index for `U \ {ref}` -/
+theorem upcRemove_index {e : Env} (he : WFEnv e) {U : SRef → Prop} {ref : SRef} {i : SInfo}
+    (hi : e.info ref = some i) (hUenv : ∀ r, U r → ∃ i, e.info r = some i)
+    {par chi : List (SRef × List SRef)} (h : IndexOK e U par chi) (hU : U ref)
+    (schemas : List SRef) (hsch : ∀ r, r ∈ schemas ↔ (U r ∧ r ≠ ref)) :
+    ∃ par' chi', upcRemove ref schemas par chi i.parents = .ok (par', chi') ∧
+      IndexOK e (fun r => U r ∧ r ≠ ref) par' chi' := by
+  have hpp := ppath_eq hi
+  have hm : IndexRem e (fun r => U r ∧ r ≠ ref) ref i.parents par chi := by
+    refine ⟨fun P => ?_, h.domp, h.par_val, fun P cs hcs => ?_⟩
+    · rw [h.dom P]
+      constructor
+      · rintro ⟨S, hS, hmem⟩
+        by_cases hSr : S = ref
+        · subst hSr; exact Or.inr (hpp ▸ hmem)
+        · exact Or.inl ⟨S, ⟨hS, hSr⟩, hmem⟩
+      · rintro (⟨S, ⟨hS, -⟩, hmem⟩ | hmem)
+        · exact ⟨S, hS, hmem⟩
+        · exact ⟨ref, hU, hpp ▸ hmem⟩
+    · obtain ⟨h1, h2⟩ := h.chi_val P cs hcs
+      refine ⟨h1, fun S => ?_⟩
+      rw [h2 S]
+      constructor
+      · rintro ⟨hS, hmem, hne⟩
+        by_cases hSr : S = ref
+        · subst hSr; exact Or.inr ⟨rfl, hpp ▸ hmem, fun h => hne h.symm⟩
+        · exact Or.inl ⟨⟨hS, hSr⟩, hmem, hne⟩
+      · rintro (⟨⟨hS, -⟩, hmem, hne⟩ | ⟨rfl, hmem, hne⟩)
+        · exact ⟨hS, hmem, hne⟩
+        · exact ⟨hU, hpp ▸ hmem, fun h => hne h.symm⟩
+  obtain ⟨par', chi', hrun, hm'⟩ := upcRemove_rem e he (fun r => U r ∧ r ≠ ref) ref (fun h => h.2 rfl)
+    (fun r hr => hUenv r hr.1) schemas hsch i.parents par chi (he.nodup ref i hi) hm
+  refine ⟨par', chi', hrun, fun P => ?_, hm'.domp, hm'.par_val, fun P cs hcs => ?_⟩
+  · simpa using hm'.dom P
+  · obtain ⟨h1, h2⟩ := hm'.chi_val P cs hcs
+    exact ⟨h1, fun S => by simpa using h2 S⟩
+
+/-- loop of `TOCPackages._unregister` over the plugin list of `pk` -/
+theorem removeProviders_spec {e : Env} (he : WFEnv e) (Q : PkgId → Prop) (pk : PkgId) :
+    ∀ (l : List SRef) (prov : List (SRef × List PkgId)),
+      l.Nodup → (∀ r ∈ l, r ∈ e.pkgPlugins pk) →
+      (∀ r ps, alGet prov r = some ps ↔
+        ((∃ pk', ps = [pk'] ∧ Q pk' ∧ pk' ≠ pk ∧ r ∈ e.pkgPlugins pk') ∨ (ps = [pk] ∧ r ∈ l))) →
+      ∃ prov', removeProviders prov pk l = .ok prov' ∧
+        ∀ r ps, alGet prov' r = some ps ↔ (∃ pk', ps = [pk'] ∧ Q pk' ∧ pk' ≠ pk ∧ r ∈ e.pkgPlugins pk')
+  | [], prov, _, _, h => ⟨prov, rfl, fun r ps => by simpa using h r ps⟩
+  | x :: l, prov, hnd, hl, h => by
+    have hx : alGet prov x = some [pk] := (h x [pk]).mpr (Or.inr ⟨rfl, by simp⟩)
+    have hxl : x ∉ l := (List.nodup_cons.mp hnd).1
+    simp only [removeProviders, hx, List.mem_singleton, not_true_eq_false, if_false, setRemove,
+      List.filter_cons, ne_eq, decide_false, Bool.false_eq_true, List.filter_nil, List.isEmpty_nil, if_true]
+    apply removeProviders_spec he Q pk l (alErase prov x) (List.nodup_cons.mp hnd).2 (fun r hr => hl r (by simp [hr]))
+    intro r ps
+    rw [alGet_alErase]
+    by_cases hr : r = x
+    · subst hr
+      simp only [if_true, hxl, and_false, or_false]
+      constructor
+      · intro h; cases h
+      · rintro ⟨pk', -, -, hne, hmem⟩
+        exact absurd (he.disj _ _ _ hmem (hl r (by simp))) hne
+    · simp only [hr, if_false, h r ps, List.mem_cons, false_or]
+
+theorem children_isEmpty_iff {t : Tree} (hk : KeysOK t) (p : Path) :
+    (children t p).isEmpty = true ↔ ∀ k, get? t (p ++ [k]) = none := by
+  rw [List.isEmpty_iff]
+  constructor
+  · intro h k
+    cases hg : get? t (p ++ [k]) with
+    | none => rfl
+    | some n =>
+      have := (mem_children hk).mpr hg
+      rw [h] at this; simp at this
+  · intro h
+    apply List.eq_nil_iff_forall_not_mem.mpr
+    rintro ⟨k, n⟩ hm
+    have := (mem_children hk).mp hm
+    rw [h k] at this; cases this
+
+/-- lookups after deleting the subtrees rooted at the paths in `D` -/
+def DelGet (t t' : Tree) (D : List Path) : Prop :=
+  ∀ q, q ≠ [] → get? t' q = if D.any (fun d => under d q) then none else get? t q
+
+theorem DelGet.nil (t : Tree) : DelGet t t [] := fun q _ => by simp
+
+theorem DelGet.of_del {t t' : Tree} {p : Path} (h : rawDel t p = .ok t') : DelGet t t' [p] := by
+  intro q hq
+  rw [rawDel_get? h q hq]
+  simp
+
+theorem DelGet.trans {t t1 t2 : Tree} {D1 D2 : List Path} (h1 : DelGet t t1 D1) (h2 : DelGet t1 t2 D2) :
+    DelGet t t2 (D1 ++ D2) := by
+  intro q hq
+  rw [h2 q hq, h1 q hq, List.any_append]
+  cases D2.any (fun d => under d q) <;> cases D1.any (fun d => under d q) <;> simp
+
+/-! the three parts of `TocRaw` -/
+structure TocBase (t : Tree) : Prop where
+  root : get? t tocP = some .grp
+  ver : get? t versionP = some (.ds (.text "1.0"))
+  uid : get? t uuidP = some (.ds (.text "uuid"))
+  shape : ∀ rest, get? t (.toc :: rest) ≠ none → TocShape rest
+
+structure TocLnk (L : Path → SRef → Nat → Prop) (t : Tree) : Prop where
+  links : Holds (get? t linksP) (∃ p r u, L p r u) .grp
+  ldir : ∀ r, Holds (get? t (linkDir r)) (∃ p u, L p r u) .grp
+  link_some : ∀ p r u, L p r u → get? t (linkPath r u) = some (.ds (.target p))
+  link_none : ∀ r u, (¬ ∃ p, L p r u) → get? t (linkPath r u) = none
+
+structure TocSch (e : Env) (U : SRef → Prop) (t : Tree) : Prop where
+  schemas : Holds (get? t schemasP) (∃ r, U r) .grp
+  sdir : ∀ r, Holds (get? t (schemaDir r)) (U r) .grp
+  json : ∀ r, Holds (get? t (schemaDir r ++ [.jsonschema])) (U r) (.ds (.jsonschema r))
+  compat : ∀ r, Holds (get? t (schemaDir r ++ [.compat])) (U r) (.ds (.compat (ppath e r)))
+  packages : Holds (get? t packagesP) (∃ r, U r) .grp
+  pkg : ∀ pk, Holds (get? t (pkgPath pk)) (RegP e U pk) (.ds (.pkginfo pk (e.pkgPlugins pk)))
+
+theorem tocRaw_iff {e : Env} {L : Path → SRef → Nat → Prop} {U : SRef → Prop} {t : Tree} :
+    TocRaw e L U t ↔ (TocBase t ∧ TocLnk L t ∧ TocSch e U t) := by
+  constructor
+  · intro h
+    exact ⟨⟨h.root, h.ver, h.uid, h.shape⟩, ⟨h.links, h.ldir, h.link_some, h.link_none⟩,
+      ⟨h.schemas, h.sdir, h.json, h.compat, h.packages, h.pkg⟩⟩
+  · rintro ⟨hb, hl, hs⟩
+    exact ⟨hb.root, hb.ver, hb.uid, hl.links, hl.ldir, hl.link_some, hl.link_none,
+      hs.schemas, hs.sdir, hs.json, hs.compat, hs.packages, hs.pkg, hb.shape⟩
+
+theorem pkgUnregister_run (pk : PkgId) (s : St) (t1 : Tree) (info : List SRef) (prov' : List (SRef × List PkgId))
+    (h1 : rawDel s.raw (pkgPath pk) = .ok t1)
+    (hinfo : alGet s.c.pkginfos pk = some info)
+    (hrem : removeProviders s.c.providers pk info = .ok prov') :
+    pkgUnregister pk s =
+      (if (children t1 packagesP).isEmpty then liftRaw (fun t => rawDel t packagesP) else pure ())
+        ⟨t1, { s.c with pkginfos := alErase s.c.pkginfos pk, providers := prov' }, s.next⟩ := by
+  simp [pkgUnregister, run_liftRaw, h1, hinfo, hrem]
+
+/-- caches after the first half of `TOCSchemas._unregister` -/
+def unregCaches (c : Caches) (ref : SRef) (par chi : List (SRef × List SRef)) (pk : PkgId) (cur : List SRef) : Caches :=
+  { c with schemas := setRemove c.schemas ref, parents := par, children := chi,
+           used := alSet c.used pk (setRemove cur ref) }
+
+theorem schemaUnregister_run (ref : SRef) (s : St) (t1 : Tree) (ps cur : List SRef)
+    (par chi : List (SRef × List SRef)) (pk : PkgId) (s3 : St)
+    (h1 : rawDel s.raw (schemaDir ref) = .ok t1)
+    (hmem : ref ∈ s.c.schemas)
+    (hps : alGet s.c.parents ref = some ps)
+    (hupc : upcRemove ref (setRemove s.c.schemas ref) s.c.parents s.c.children ps = .ok (par, chi))
+    (hprov : alGet s.c.providers ref = some [pk])
+    (hcur : alGet s.c.used pk = some cur)
+    (h3 : (if (setRemove cur ref).isEmpty then pkgUnregister pk else pure ())
+      ⟨t1, unregCaches s.c ref par chi pk cur, s.next⟩ = (.ok (), s3)) :
+    schemaUnregister ref s =
+      (if (children s3.raw schemasP).isEmpty then liftRaw (fun t => rawDel t schemasP) else pure ()) s3 := by
+  simp only [unregCaches] at h3
+  simp [schemaUnregister, run_liftRaw, h1, hmem, hps, hupc, hprov, hcur]
+  by_cases hc : setRemove cur ref = []
+  · simp only [hc, List.isEmpty_nil, if_true] at h3
+    simp [hc, h3]
+  · have : (setRemove cur ref).isEmpty = false := by simpa using hc
+    simp only [this, Bool.false_eq_true, if_false, run_pure, Prod.mk.injEq, true_and] at h3
+    subst h3
+    simp [hc]
+
+/-- paths removed by `TOCSchemas._unregister(ref)` (`U'`: schemas still in use, `pk`: provider of `ref`) -/
+def UnregDel (e : Env) (U' : SRef → Prop) (ref : SRef) (pk : PkgId) (q : Path) : Prop :=
+  schemaDir ref <+: q ∨ (¬ RegP e U' pk ∧ pkgPath pk <+: q) ∨ ((¬ ∃ r, U' r) ∧ (packagesP <+: q ∨ schemasP <+: q))
+
+theorem RegP_remove {e : Env} {U : SRef → Prop} {ref : SRef} {i : SInfo} (hi : e.info ref = some i)
+    (pk : PkgId) (hpk : pk ≠ i.pkg) :
+    RegP e (fun r => U r ∧ r ≠ ref) pk ↔ RegP e U pk := by
+  constructor
+  · rintro ⟨r, j, ⟨hU, -⟩, hj, rfl⟩; exact ⟨r, j, hU, hj, rfl⟩
+  · rintro ⟨r, j, hU, hj, rfl⟩
+    refine ⟨r, j, ⟨hU, ?_⟩, hj, rfl⟩
+    rintro rfl
+    rw [hi] at hj; cases hj; exact hpk rfl
+
+theorem tocSch_unregister {e : Env} {U : SRef → Prop} {t t' : Tree} {ref : SRef} {i : SInfo}
+    (hi : e.info ref = some i) (hUenv : ∀ r, U r → ∃ i, e.info r = some i)
+    (hs : TocSch e U t)
+    (hget : ∀ q, q ≠ [] →
+      (UnregDel e (fun r => U r ∧ r ≠ ref) ref i.pkg q → get? t' q = none) ∧
+      (¬ UnregDel e (fun r => U r ∧ r ≠ ref) ref i.pkg q → get? t' q = get? t q)) :
+    TocSch e (fun r => U r ∧ r ≠ ref) t' := by
+  have hreg_of : ∀ r, (U r ∧ r ≠ ref) → ∃ pk, RegP e (fun r => U r ∧ r ≠ ref) pk := by
+    intro r hr
+    obtain ⟨j, hj⟩ := hUenv r hr.1
+    exact ⟨j.pkg, r, j, hr, hj, rfl⟩
+  constructor
+  · -- schemas group
+    by_cases hex : ∃ r, U r ∧ r ≠ ref
+    · refine Holds.intro_some ?_ hex
+      rw [(hget schemasP (by simp [schemasP])).2 ?_]
+      · obtain ⟨r, hr, -⟩ := hex; exact hs.schemas.1 ⟨r, hr⟩
+      · simp [UnregDel, hex, schemaDir, schemasP, pkgPath, List.cons_prefix_cons]
+    · refine ⟨fun h => absurd h hex, fun _ => ?_⟩
+      exact (hget schemasP (by simp [schemasP])).1 (Or.inr (Or.inr ⟨hex, Or.inr (List.prefix_refl _)⟩))
+  · intro r
+    by_cases hr : U r ∧ r ≠ ref
+    · refine Holds.intro_some ?_ hr
+      rw [(hget (schemaDir r) (by simp [schemaDir])).2 ?_]
+      · exact (hs.sdir r).1 hr.1
+      · have : ¬ ref = r := fun h => hr.2 h.symm
+        simp [UnregDel, schemaDir, schemasP, pkgPath, packagesP, List.cons_prefix_cons, this]
+        exact ⟨r, hr⟩
+    · refine ⟨fun h => absurd h hr, fun _ => ?_⟩
+      by_cases hd : UnregDel e (fun r => U r ∧ r ≠ ref) ref i.pkg (schemaDir r)
+      · exact (hget _ (by simp [schemaDir])).1 hd
+      · rw [(hget _ (by simp [schemaDir])).2 hd]
+        by_cases hrr : r = ref
+        · subst hrr; exact absurd (Or.inl (List.prefix_refl _)) hd
+        · exact (hs.sdir r).2 (fun h => hr ⟨h, hrr⟩)
+  · intro r
+    by_cases hr : U r ∧ r ≠ ref
+    · refine Holds.intro_some ?_ hr
+      rw [(hget (schemaDir r ++ [Key.jsonschema]) (by simp [schemaDir])).2 ?_]
+      · exact (hs.json r).1 hr.1
+      · have : ¬ ref = r := fun h => hr.2 h.symm
+        simp [UnregDel, schemaDir, schemasP, pkgPath, packagesP, List.cons_prefix_cons, this]
+        exact ⟨r, hr⟩
+    · refine ⟨fun h => absurd h hr, fun _ => ?_⟩
+      by_cases hd : UnregDel e (fun r => U r ∧ r ≠ ref) ref i.pkg (schemaDir r ++ [Key.jsonschema])
+      · exact (hget _ (by simp [schemaDir])).1 hd
+      · rw [(hget _ (by simp [schemaDir])).2 hd]
+        by_cases hrr : r = ref
+        · subst hrr; exact absurd (Or.inl ⟨[Key.jsonschema], rfl⟩) hd
+        · exact (hs.json r).2 (fun h => hr ⟨h, hrr⟩)
+  · intro r
+    have hpp : r ≠ ref → True := fun _ => trivial
+    by_cases hr : U r ∧ r ≠ ref
+    · refine Holds.intro_some ?_ hr
+      rw [(hget (schemaDir r ++ [Key.compat]) (by simp [schemaDir])).2 ?_]
+      · exact (hs.compat r).1 hr.1
+      · have : ¬ ref = r := fun h => hr.2 h.symm
+        simp [UnregDel, schemaDir, schemasP, pkgPath, packagesP, List.cons_prefix_cons, this]
+        exact ⟨r, hr⟩
+    · refine ⟨fun h => absurd h hr, fun _ => ?_⟩
+      by_cases hd : UnregDel e (fun r => U r ∧ r ≠ ref) ref i.pkg (schemaDir r ++ [Key.compat])
+      · exact (hget _ (by simp [schemaDir])).1 hd
+      · rw [(hget _ (by simp [schemaDir])).2 hd]
+        by_cases hrr : r = ref
+        · subst hrr; exact absurd (Or.inl ⟨[Key.compat], rfl⟩) hd
+        · exact (hs.compat r).2 (fun h => hr ⟨h, hrr⟩)
+  · -- packages group
+    by_cases hex : ∃ r, U r ∧ r ≠ ref
+    · refine Holds.intro_some ?_ hex
+      rw [(hget packagesP (by simp [packagesP])).2 ?_]
+      · obtain ⟨r, hr, -⟩ := hex; exact hs.packages.1 ⟨r, hr⟩
+      · simp [UnregDel, hex, schemaDir, schemasP, pkgPath, packagesP, List.cons_prefix_cons]
+    · refine ⟨fun h => absurd h hex, fun _ => ?_⟩
+      exact (hget packagesP (by simp [packagesP])).1 (Or.inr (Or.inr ⟨hex, Or.inl (List.prefix_refl _)⟩))
+  · intro pk
+    by_cases hr : RegP e (fun r => U r ∧ r ≠ ref) pk
+    · refine Holds.intro_some ?_ hr
+      have hex : ∃ r, U r ∧ r ≠ ref := by obtain ⟨r, _, h, _⟩ := hr; exact ⟨r, h⟩
+      rw [(hget (pkgPath pk) (by simp [pkgPath])).2 ?_]
+      · obtain ⟨r, j, ⟨hU, -⟩, hj, hjp⟩ := hr
+        exact (hs.pkg pk).1 ⟨r, j, hU, hj, hjp⟩
+      · simp only [UnregDel, schemaDir, schemasP, pkgPath, packagesP, List.cons_prefix_cons, hex, not_true_eq_false, false_and, or_false]
+        simp only [reduceCtorEq, false_and, and_false, false_or, true_and, not_and, List.nil_prefix, and_true, Key.pkg.injEq]
+        intro h1 h2; exact h1 (h2 ▸ hr)
+    · refine ⟨fun h => absurd h hr, fun _ => ?_⟩
+      by_cases hd : UnregDel e (fun r => U r ∧ r ≠ ref) ref i.pkg (pkgPath pk)
+      · exact (hget _ (by simp [pkgPath])).1 hd
+      · rw [(hget _ (by simp [pkgPath])).2 hd]
+        by_cases hpk : pk = i.pkg
+        · subst hpk
+          exact absurd (Or.inr (Or.inl ⟨hr, List.prefix_refl _⟩)) hd
+        · exact (hs.pkg pk).2 (fun h => hr ((RegP_remove hi pk hpk).mpr h))
+
+/-- caches after `TOCSchemas._unregister(ref)`; `b`: the providing package was unregistered too -/
+theorem schemaCache_unreg {e : Env} (he : WFEnv e) {U : SRef → Prop} {c : Caches} {ref : SRef} {i : SInfo}
+    {cur : List SRef} {par chi : List (SRef × List SRef)} {prov' : List (SRef × List PkgId)}
+    (hi : e.info ref = some i) (hs : SchemaCache e U c) (hU : U ref)
+    (hu : alGet c.used i.pkg = some cur)
+    (hidx : IndexOK e (fun r => U r ∧ r ≠ ref) par chi)
+    (b : Bool) (hb : b = true ↔ ¬ RegP e (fun r => U r ∧ r ≠ ref) i.pkg)
+    (hprov : b = true → ∀ r ps, alGet prov' r = some ps ↔
+      (∃ pk', ps = [pk'] ∧ RegP e U pk' ∧ pk' ≠ i.pkg ∧ r ∈ e.pkgPlugins pk')) :
+    SchemaCache e (fun r => U r ∧ r ≠ ref)
+      (if b then { unregCaches c ref par chi i.pkg cur with
+                    pkginfos := alErase c.pkginfos i.pkg, providers := prov' }
+       else unregCaches c ref par chi i.pkg cur) := by
+  have hregU : RegP e U i.pkg := ⟨ref, i, hU, hi, rfl⟩
+  have hreg_ne : ∀ pk, pk ≠ i.pkg → (RegP e (fun r => U r ∧ r ≠ ref) pk ↔ RegP e U pk) :=
+    fun pk hpk => RegP_remove hi pk hpk
+  -- the parts that do not depend on `b`
+  have hsch : ∀ r, r ∈ setRemove c.schemas ref ↔ (U r ∧ r ≠ ref) := by
+    intro r; rw [mem_setRemove, hs.schemas r]
+  have hused_dom : ∀ pk, RegP e (fun r => U r ∧ r ≠ ref) pk →
+      (alGet (alSet c.used i.pkg (setRemove cur ref)) pk).isSome := by
+    intro pk hpk
+    rw [alGet_alSet]
+    by_cases h : pk = i.pkg
+    · simp [h]
+    · simp only [h, if_false]; exact hs.used_dom pk ((hreg_ne pk h).mp hpk)
+  have hused_val : ∀ pk rs, alGet (alSet c.used i.pkg (setRemove cur ref)) pk = some rs → rs.Nodup ∧
+      ∀ r, r ∈ rs ↔ ((U r ∧ r ≠ ref) ∧ ∃ j, e.info r = some j ∧ j.pkg = pk) := by
+    intro pk rs hrs
+    rw [alGet_alSet] at hrs
+    by_cases h : pk = i.pkg
+    · subst h
+      simp only [if_true, Option.some.injEq] at hrs
+      subst hrs
+      obtain ⟨hnd, hmem⟩ := hs.used_val _ _ hu
+      refine ⟨nodup_setRemove hnd _, fun r => ?_⟩
+      rw [mem_setRemove, hmem r]
+      tauto
+    · simp only [h, if_false] at hrs
+      obtain ⟨hnd, hmem⟩ := hs.used_val _ _ hrs
+      refine ⟨hnd, fun r => ?_⟩
+      rw [hmem r]
+      constructor
+      · rintro ⟨hUr, j, hj, hjp⟩
+        refine ⟨⟨hUr, ?_⟩, j, hj, hjp⟩
+        rintro rfl
+        rw [hi] at hj; cases hj; exact h hjp.symm
+      · rintro ⟨⟨hUr, -⟩, hex⟩; exact ⟨hUr, hex⟩
+  cases b with
+  | false =>
+    have hreg : RegP e (fun r => U r ∧ r ≠ ref) i.pkg := by
+      by_contra h; exact absurd (hb.mpr h) (by simp)
+    have hreg_all : ∀ pk, RegP e (fun r => U r ∧ r ≠ ref) pk ↔ RegP e U pk := by
+      intro pk
+      by_cases h : pk = i.pkg
+      · subst h; exact ⟨fun _ => hregU, fun _ => hreg⟩
+      · exact hreg_ne pk h
+    simp only [Bool.false_eq_true, if_false]
+    refine ⟨hsch, nodup_setRemove hs.schemas_nodup _, hidx, ?_, ?_, hused_dom, hused_val⟩
+    · intro pk pl; simp only [unregCaches, hreg_all]; exact hs.pkginfos pk pl
+    · intro r ps; simp only [unregCaches, hreg_all]; exact hs.providers r ps
+  | true =>
+    have hnreg : ¬ RegP e (fun r => U r ∧ r ≠ ref) i.pkg := hb.mp rfl
+    simp only [if_true]
+    refine ⟨hsch, nodup_setRemove hs.schemas_nodup _, hidx, ?_, ?_, hused_dom, hused_val⟩
+    · intro pk pl
+      show alGet (alErase c.pkginfos i.pkg) pk = some pl ↔ _
+      rw [alGet_alErase]
+      by_cases h : pk = i.pkg
+      · subst h; simp [hnreg]
+      · simp only [h, if_false, hreg_ne pk h]; exact hs.pkginfos pk pl
+    · intro r ps
+      show alGet prov' r = some ps ↔ _
+      rw [hprov rfl r ps]
+      constructor
+      · rintro ⟨pk', rfl, hreg', hne, hmem⟩
+        exact ⟨pk', rfl, (hreg_ne pk' hne).mpr hreg', hmem⟩
+      · rintro ⟨pk', rfl, hreg', hmem⟩
+        have hne : pk' ≠ i.pkg := by rintro rfl; exact hnreg hreg'
+        exact ⟨pk', rfl, (hreg_ne pk' hne).mp hreg', hne, hmem⟩
+
+theorem under_false_of_not_prefix {p q : Path} (h : ¬ p <+: q) : under p q = false := by
+  cases hu : under p q
+  · rfl
+  · exact absurd (under_iff.mp hu) h
+
+theorem under_true_of_prefix {p q : Path} (h : p <+: q) : under p q = true := under_iff.mpr h
+
+/-- a child of `/metador_container/packages` is a package record -/
+theorem TocBase.pkg_child {t : Tree} (hb : TocBase t) {k : Key} (h : get? t (packagesP ++ [k]) ≠ none) :
+    ∃ pk, k = .pkg pk := by
+  have := hb.shape [.packages, k] (by simpa [packagesP] using h)
+  cases this; exact ⟨_, rfl⟩
+
+theorem TocBase.schema_child {t : Tree} (hb : TocBase t) {k : Key} (h : get? t (schemasP ++ [k]) ≠ none) :
+    ∃ r, k = .ep r := by
+  have := hb.shape [.schemas, k] (by simpa [schemasP] using h)
+  cases this; exact ⟨_, rfl⟩
+
+theorem TocBase.link_child {t : Tree} (hb : TocBase t) {k : Key} (h : get? t (linksP ++ [k]) ≠ none) :
+    ∃ r, k = .ep r := by
+  have := hb.shape [.links, k] (by simpa [linksP] using h)
+  cases this; exact ⟨_, rfl⟩
+
+theorem TocBase.linkDir_child {t : Tree} (hb : TocBase t) {r : SRef} {k : Key}
+    (h : get? t (linkDir r ++ [k]) ≠ none) : ∃ u, k = .link u := by
+  have := hb.shape [.links, .ep r, k] (by simpa [linkDir] using h)
+  cases this; exact ⟨_, rfl⟩
+
+/-- `TOCSchemas._unregister(ref)` -/
+theorem schemaUnregister_spec {e : Env} (he : WFEnv e) {U : SRef → Prop} {s : St} {ref : SRef} {i : SInfo}
+    (hi : e.info ref = some i) (hUenv : ∀ r, U r → ∃ i, e.info r = some i)
+    (hk : KeysOK s.raw) (hb : TocBase s.raw) (hsch : TocSch e U s.raw) (hs : SchemaCache e U s.c)
+    (hU : U ref) :
+    ∃ s', schemaUnregister ref s = (.ok (), s') ∧
+      (∀ q, q ≠ [] →
+        (UnregDel e (fun r => U r ∧ r ≠ ref) ref i.pkg q → get? s'.raw q = none) ∧
+        (¬ UnregDel e (fun r => U r ∧ r ≠ ref) ref i.pkg q → get? s'.raw q = get? s.raw q)) ∧
+      SchemaCache e (fun r => U r ∧ r ≠ ref) s'.c ∧ s'.c.tocPath = s.c.tocPath ∧ TocStep s s' := by
+  -- the schema directory goes first
+  have hsd : get? s.raw (schemaDir ref) ≠ none := by rw [(hsch.sdir ref).1 hU]; simp
+  have h1 := rawDel_ok (t := s.raw) (p := schemaDir ref) (by simp [schemaDir]) hsd
+  set t1 := s.raw.filter (fun e => !under (schemaDir ref) e.1) with ht1
+  have hk1 : KeysOK t1 := rawDel_keys h1 hk
+  have g1 : ∀ q, q ≠ [] → get? t1 q = if under (schemaDir ref) q then none else get? s.raw q :=
+    fun q hq => rawDel_get? h1 q hq
+  -- caches
+  have hmem : ref ∈ s.c.schemas := (hs.schemas ref).mpr hU
+  have hps : alGet s.c.parents ref = some i.parents := by
+    have h1 : (alGet s.c.children ref).isSome := (hs.index.dom ref).mpr ⟨ref, hU, mem_ppath_self he hi⟩
+    obtain ⟨l, hl⟩ := alGet_some_of_isSome ((hs.index.domp ref).mpr h1)
+    rw [hl, hs.index.par_val ref l hl, ppath_eq hi]
+  obtain ⟨par, chi, hupc, hidx⟩ := upcRemove_index he hi hUenv hs.index hU (setRemove s.c.schemas ref)
+    (fun r => by rw [mem_setRemove, hs.schemas r])
+  have hregU : RegP e U i.pkg := ⟨ref, i, hU, hi, rfl⟩
+  have hprov : alGet s.c.providers ref = some [i.pkg] :=
+    (hs.providers ref [i.pkg]).mpr ⟨i.pkg, rfl, hregU, he.prov ref i hi⟩
+  obtain ⟨cur, hcur⟩ := alGet_some_of_isSome (hs.used_dom i.pkg hregU)
+  obtain ⟨hcurnd, hcurmem⟩ := hs.used_val _ _ hcur
+  have hcur' : ∀ r, r ∈ setRemove cur ref ↔ ((U r ∧ r ≠ ref) ∧ ∃ j, e.info r = some j ∧ j.pkg = i.pkg) := by
+    intro r; rw [mem_setRemove, hcurmem r]; tauto
+  have hcur_nil : setRemove cur ref = [] ↔ ¬ RegP e (fun r => U r ∧ r ≠ ref) i.pkg := by
+    rw [List.eq_nil_iff_forall_not_mem]
+    constructor
+    · rintro h ⟨r, j, hr, hj, hjp⟩; exact h r ((hcur' r).mpr ⟨hr, j, hj, hjp⟩)
+    · intro h r hr
+      obtain ⟨hr', j, hj, hjp⟩ := (hcur' r).mp hr
+      exact h ⟨r, j, hr', hj, hjp⟩
+  set s2 : St := ⟨t1, unregCaches s.c ref par chi i.pkg cur, s.next⟩ with hs2
+  have step1 : TocStep s s2 := TocStep.of_del h1 (by simp [schemaDir]) _
+  -- used schemas keep their directory
+  have hkeep : ∀ r, U r ∧ r ≠ ref → get? t1 (schemaDir r) = some .grp := by
+    intro r hr
+    rw [g1 _ (by simp [schemaDir]), under_false_of_not_prefix, (hsch.sdir r).1 hr.1]
+    · simp
+    · have : ¬ ref = r := fun h => hr.2 h.symm
+      simp [schemaDir, List.cons_prefix_cons, this]
+  by_cases hreg' : RegP e (fun r => U r ∧ r ≠ ref) i.pkg
+  · -- (A) the package is still needed
+    have hne : (setRemove cur ref).isEmpty = false := by
+      cases hx : (setRemove cur ref).isEmpty
+      · rfl
+      · exact absurd hreg' (hcur_nil.mp (List.isEmpty_iff.mp hx))
+    obtain ⟨r0, _, hr0, _, _⟩ := hreg'
+    have hchild : (children s2.raw schemasP).isEmpty = false := by
+      cases hx : (children s2.raw schemasP).isEmpty
+      · rfl
+      · have := (children_isEmpty_iff hk1 schemasP).mp hx (.ep r0)
+        have h2 := hkeep r0 hr0
+        simp only [schemaDir, schemasP, List.cons_append, List.nil_append] at this h2
+        rw [this] at h2; cases h2
+    refine ⟨s2, ?_, ?_, ?_, rfl, step1⟩
+    · rw [schemaUnregister_run ref s t1 i.parents cur par chi i.pkg s2 h1 hmem hps hupc hprov hcur (by simp [hne, hs2])]
+      simp [hchild]
+    · intro q hq
+      have hex : ∃ r, U r ∧ r ≠ ref := ⟨r0, hr0⟩
+      have hreg'' : RegP e (fun r => U r ∧ r ≠ ref) i.pkg := ⟨r0, _, hr0, ‹_›, ‹_›⟩
+      have : UnregDel e (fun r => U r ∧ r ≠ ref) ref i.pkg q ↔ schemaDir ref <+: q := by
+        simp [UnregDel, hex, hreg'']
+      rw [this]
+      constructor
+      · intro h; show get? t1 q = none; rw [g1 q hq, under_true_of_prefix h]; simp
+      · intro h; show get? t1 q = get? s.raw q; rw [g1 q hq, under_false_of_not_prefix h]; simp
+    · have := schemaCache_unreg he hi hs hU hcur hidx false (by simp; exact ⟨r0, _, hr0, ‹_›, ‹_›⟩)
+        (prov' := []) (by simp)
+      simpa using this
+  · -- the package record goes as well
+    have hempty : (setRemove cur ref).isEmpty = true := List.isEmpty_iff.mpr (hcur_nil.mpr hreg')
+    have hpk1 : get? t1 (pkgPath i.pkg) ≠ none := by
+      rw [g1 _ (by simp [pkgPath]), under_false_of_not_prefix (by simp [schemaDir, pkgPath, List.cons_prefix_cons]),
+        (hsch.pkg i.pkg).1 hregU]
+      simp
+    have h2 := rawDel_ok (t := t1) (p := pkgPath i.pkg) (by simp [pkgPath]) hpk1
+    set t2 := t1.filter (fun e => !under (pkgPath i.pkg) e.1) with ht2
+    have hk2 : KeysOK t2 := rawDel_keys h2 hk1
+    have g2 : ∀ q, q ≠ [] → get? t2 q =
+        if under (pkgPath i.pkg) q then none else if under (schemaDir ref) q then none else get? s.raw q := by
+      intro q hq; rw [rawDel_get? h2 q hq, g1 q hq]
+    have hinfo : alGet s2.c.pkginfos i.pkg = some (e.pkgPlugins i.pkg) :=
+      (hs.pkginfos i.pkg _).mpr ⟨hregU, rfl⟩
+    obtain ⟨prov', hrem, hprov'⟩ := removeProviders_spec he (RegP e U) i.pkg (e.pkgPlugins i.pkg) s.c.providers
+      (he.plugins_nodup i.pkg) (fun _ h => h) (by
+        intro r ps
+        rw [hs.providers r ps]
+        constructor
+        · rintro ⟨pk', rfl, hpk', hm⟩
+          by_cases h : pk' = i.pkg
+          · subst h; exact Or.inr ⟨rfl, hm⟩
+          · exact Or.inl ⟨pk', rfl, hpk', h, hm⟩
+        · rintro (⟨pk', rfl, hpk', -, hm⟩ | ⟨rfl, hm⟩)
+          · exact ⟨pk', rfl, hpk', hm⟩
+          · exact ⟨i.pkg, rfl, hregU, hm⟩)
+    set c3 : Caches := { unregCaches s.c ref par chi i.pkg cur with
+      pkginfos := alErase s.c.pkginfos i.pkg, providers := prov' } with hc3
+    have hcache : SchemaCache e (fun r => U r ∧ r ≠ ref) c3 := by
+      have := schemaCache_unreg he hi hs hU hcur hidx true (by simp [hreg']) (prov' := prov') (fun _ => hprov')
+      simpa using this
+    have hpkrun : pkgUnregister i.pkg s2 =
+        (if (children t2 packagesP).isEmpty then liftRaw (fun t => rawDel t packagesP) else pure ())
+          ⟨t2, c3, s.next⟩ :=
+      pkgUnregister_run i.pkg s2 t2 _ prov' h2 hinfo hrem
+    have step2 : TocStep s ⟨t2, c3, s.next⟩ :=
+      step1.trans (TocStep.of_del (s := s2) h2 (by simp [pkgPath]) c3)
+    -- which package records are left
+    have hpkchild : ∀ k, get? t2 (packagesP ++ [k]) ≠ none ↔
+        ∃ pk, k = .pkg pk ∧ RegP e (fun r => U r ∧ r ≠ ref) pk := by
+      intro k
+      rw [g2 _ (by simp [packagesP])]
+      constructor
+      · intro h
+        split_ifs at h with hu1 hu2
+        · exact absurd rfl h
+        · exact absurd rfl h
+        · obtain ⟨pk, rfl⟩ := hb.pkg_child h
+          have hne : pk ≠ i.pkg := by
+            rintro rfl
+            exact hu1 (under_true_of_prefix (by simp [pkgPath, packagesP]))
+          refine ⟨pk, rfl, (RegP_remove hi pk hne).mpr ?_⟩
+          by_contra hc
+          exact h ((hsch.pkg pk).2 hc)
+      · rintro ⟨pk, rfl, hpk⟩
+        have hne : pk ≠ i.pkg := by rintro rfl; exact hreg' hpk
+        have hne' : ¬ i.pkg = pk := fun h => hne h.symm
+        rw [under_false_of_not_prefix (by simp [pkgPath, packagesP, List.cons_prefix_cons, hne']),
+          under_false_of_not_prefix (by simp [schemaDir, packagesP, List.cons_prefix_cons])]
+        simp only [Bool.false_eq_true, if_false]
+        have := (hsch.pkg pk).1 ((RegP_remove hi pk hne).mp hpk)
+        simp only [pkgPath, packagesP, List.cons_append, List.nil_append] at this ⊢
+        rw [this]; simp
+    by_cases hex : ∃ r, U r ∧ r ≠ ref
+    · -- (B) other schemas (of other packages) are still in use
+      obtain ⟨r0, hr0⟩ := hex
+      obtain ⟨j0, hj0⟩ := hUenv r0 hr0.1
+      have hreg0 : RegP e (fun r => U r ∧ r ≠ ref) j0.pkg := ⟨r0, j0, hr0, hj0, rfl⟩
+      have hpkne : (children t2 packagesP).isEmpty = false := by
+        cases hx : (children t2 packagesP).isEmpty
+        · rfl
+        · have := (children_isEmpty_iff hk2 packagesP).mp hx (.pkg j0.pkg)
+          exact absurd this ((hpkchild _).mpr ⟨_, rfl, hreg0⟩)
+      have hschne : (children t2 schemasP).isEmpty = false := by
+        cases hx : (children t2 schemasP).isEmpty
+        · rfl
+        · have := (children_isEmpty_iff hk2 schemasP).mp hx (.ep r0)
+          have h3 : get? t2 (schemaDir r0) = some .grp := by
+            rw [rawDel_get? h2 _ (by simp [schemaDir]),
+              under_false_of_not_prefix (by simp [schemaDir, pkgPath, List.cons_prefix_cons])]
+            simpa using hkeep r0 hr0
+          simp only [schemaDir, schemasP, List.cons_append, List.nil_append] at this h3
+          rw [this] at h3; cases h3
+      refine ⟨⟨t2, c3, s.next⟩, ?_, ?_, hcache, rfl, step2⟩
+      · rw [schemaUnregister_run ref s t1 i.parents cur par chi i.pkg ⟨t2, c3, s.next⟩ h1 hmem hps hupc hprov hcur
+          (by simp only [hempty, if_true]; rw [← hs2, hpkrun]; simp [hpkne])]
+        simp [hschne]
+      · intro q hq
+        have : UnregDel e (fun r => U r ∧ r ≠ ref) ref i.pkg q ↔ (schemaDir ref <+: q ∨ pkgPath i.pkg <+: q) := by
+          simp only [UnregDel, hreg', not_false_eq_true, true_and]
+          have : ¬ ¬ ∃ r, U r ∧ r ≠ ref := fun h => h ⟨r0, hr0⟩
+          simp [this]
+        rw [this]
+        show (_ → get? t2 q = none) ∧ (_ → get? t2 q = get? s.raw q)
+        rw [g2 q hq]
+        constructor
+        · rintro (h | h)
+          · rw [under_true_of_prefix h]; simp
+          · rw [under_true_of_prefix h]; simp
+        · intro h
+          rw [under_false_of_not_prefix (fun h' => h (Or.inr h')), under_false_of_not_prefix (fun h' => h (Or.inl h'))]
+          simp
+    · -- (C) nothing is left: the bookkeeping groups go
+      have hpke : (children t2 packagesP).isEmpty = true := by
+        rw [children_isEmpty_iff hk2]
+        intro k
+        by_contra hc
+        obtain ⟨pk, -, r, _, hr, -, -⟩ := (hpkchild k).mp hc
+        exact hex ⟨r, hr⟩
+      have hpkg2 : get? t2 packagesP ≠ none := by
+        rw [g2 _ (by simp [packagesP]),
+          under_false_of_not_prefix (by simp [pkgPath, packagesP, List.cons_prefix_cons]),
+          under_false_of_not_prefix (by simp [schemaDir, packagesP, List.cons_prefix_cons]),
+          hsch.packages.1 ⟨ref, hU⟩]
+        simp
+      have h3 := rawDel_ok (t := t2) (p := packagesP) (by simp [packagesP]) hpkg2
+      set t3 := t2.filter (fun e => !under packagesP e.1) with ht3
+      have hk3 : KeysOK t3 := rawDel_keys h3 hk2
+      have g3 : ∀ q, q ≠ [] → get? t3 q = if under packagesP q then none else get? t2 q :=
+        fun q hq => rawDel_get? h3 q hq
+      have hsche : (children t3 schemasP).isEmpty = true := by
+        rw [children_isEmpty_iff hk3]
+        intro k
+        rw [g3 _ (by simp [schemasP]), under_false_of_not_prefix (by simp [schemasP, packagesP, List.cons_prefix_cons]),
+          g2 _ (by simp [schemasP]), under_false_of_not_prefix (by simp [schemasP, pkgPath, List.cons_prefix_cons])]
+        simp only [Bool.false_eq_true, if_false]
+        split_ifs with hu
+        · rfl
+        · by_contra hc
+          obtain ⟨r, rfl⟩ := hb.schema_child hc
+          have hUr : U r := by
+            by_contra hn
+            have := (hsch.sdir r).2 hn
+            simp only [schemaDir, schemasP, List.cons_append, List.nil_append] at this hc
+            exact hc this
+          have hne : r ≠ ref := by
+            rintro rfl
+            exact hu (under_true_of_prefix (by simp [schemaDir, schemasP]))
+          exact hex ⟨r, hUr, hne⟩
+      have hsch3 : get? t3 schemasP ≠ none := by
+        rw [g3 _ (by simp [schemasP]), under_false_of_not_prefix (by simp [schemasP, packagesP, List.cons_prefix_cons]),
+          g2 _ (by simp [schemasP]), under_false_of_not_prefix (by simp [schemasP, pkgPath, List.cons_prefix_cons]),
+          under_false_of_not_prefix (by simp [schemasP, schemaDir, List.cons_prefix_cons]),
+          hsch.schemas.1 ⟨ref, hU⟩]
+        simp
+      have h4 := rawDel_ok (t := t3) (p := schemasP) (by simp [schemasP]) hsch3
+      set t4 := t3.filter (fun e => !under schemasP e.1) with ht4
+      have step4 : TocStep s ⟨t4, c3, s.next⟩ :=
+        (step2.trans (TocStep.of_del (s := ⟨t2, c3, s.next⟩) h3 (by simp [packagesP]) c3)).trans
+          (TocStep.of_del (s := ⟨t3, c3, s.next⟩) h4 (by simp [schemasP]) c3)
+      refine ⟨⟨t4, c3, s.next⟩, ?_, ?_, hcache, rfl, step4⟩
+      · rw [schemaUnregister_run ref s t1 i.parents cur par chi i.pkg ⟨t3, c3, s.next⟩ h1 hmem hps hupc hprov hcur
+          (by simp only [hempty, if_true]; rw [← hs2, hpkrun]; simp [hpke, run_liftRaw, h3])]
+        simp [hsche, run_liftRaw, h4]
+      · intro q hq
+        have : UnregDel e (fun r => U r ∧ r ≠ ref) ref i.pkg q ↔
+            (schemaDir ref <+: q ∨ pkgPath i.pkg <+: q ∨ packagesP <+: q ∨ schemasP <+: q) := by
+          simp only [UnregDel, hreg', not_false_eq_true, true_and, hex]
+        rw [this]
+        show (_ → get? t4 q = none) ∧ (_ → get? t4 q = get? s.raw q)
+        rw [rawDel_get? h4 q hq, g3 q hq, g2 q hq]
+        constructor
+        · rintro (h | h | h | h)
+          · rw [under_true_of_prefix h]; simp
+          · rw [under_true_of_prefix h]; simp
+          · rw [under_true_of_prefix h]; simp
+          · rw [under_true_of_prefix h]; simp
+        · intro h
+          rw [under_false_of_not_prefix (fun h' => h (Or.inr (Or.inr (Or.inr h')))),
+            under_false_of_not_prefix (fun h' => h (Or.inr (Or.inr (Or.inl h')))),
+            under_false_of_not_prefix (fun h' => h (Or.inr (Or.inl h'))),
+            under_false_of_not_prefix (fun h' => h (Or.inl h'))]
+          simp
+
+theorem TocSch.frame {e : Env} {U : SRef → Prop} {t t' : Tree} (h : TocSch e U t)
+    (hf : ∀ q, (schemasP <+: q ∨ packagesP <+: q) → get? t' q = get? t q) : TocSch e U t' := by
+  refine ⟨?_, fun r => ?_, fun r => ?_, fun r => ?_, ?_, fun pk => ?_⟩
+  · exact h.schemas.congr (hf _ (Or.inl (List.prefix_refl _))) Iff.rfl
+  · exact (h.sdir r).congr (hf _ (Or.inl (by simp [schemasP, schemaDir]))) Iff.rfl
+  · exact (h.json r).congr (hf _ (Or.inl (by simp [schemasP, schemaDir]))) Iff.rfl
+  · exact (h.compat r).congr (hf _ (Or.inl (by simp [schemasP, schemaDir]))) Iff.rfl
+  · exact h.packages.congr (hf _ (Or.inr (List.prefix_refl _))) Iff.rfl
+  · exact (h.pkg pk).congr (hf _ (Or.inr (by simp [packagesP, pkgPath]))) Iff.rfl
+
+theorem TocSch.congr {e : Env} {U U' : SRef → Prop} {t : Tree} (h : TocSch e U t) (hU : ∀ r, U' r ↔ U r) :
+    TocSch e U' t := by
+  have : U' = U := funext fun r => propext (hU r)
+  rw [this]; exact h
+
+theorem TocBase.sub {t t' : Tree} (h : TocBase t)
+    (hsub : ∀ q, get? t' q = none ∨ get? t' q = get? t q)
+    (hkeep : ∀ q, q = tocP ∨ q = versionP ∨ q = uuidP → get? t' q = get? t q) : TocBase t' := by
+  refine ⟨?_, ?_, ?_, fun rest hne => ?_⟩
+  · rw [hkeep _ (Or.inl rfl)]; exact h.root
+  · rw [hkeep _ (Or.inr (Or.inl rfl))]; exact h.ver
+  · rw [hkeep _ (Or.inr (Or.inr rfl))]; exact h.uid
+  · rcases hsub (.toc :: rest) with h' | h'
+    · exact absurd h' hne
+    · exact h.shape rest (h' ▸ hne)
+
+theorem unregDel_toc {e : Env} {U' : SRef → Prop} {ref : SRef} {pk : PkgId} {q : Path}
+    (h : UnregDel e U' ref pk q) : schemasP <+: q ∨ packagesP <+: q := by
+  rcases h with h | ⟨-, h⟩ | ⟨-, h | h⟩
+  · exact Or.inl (List.IsPrefix.trans (by simp [schemasP, schemaDir]) h)
+  · exact Or.inr (List.IsPrefix.trans (by simp [packagesP, pkgPath]) h)
+  · exact Or.inr h
+  · exact Or.inl h
+
+theorem linkUnregister_run1 (u : Nat) (s : St) (r : SRef) (t1 : Tree)
+    (htp : alGet s.c.tocPath u = some (linkPath r u))
+    (h1 : rawDel s.raw (linkPath r u) = .ok t1)
+    (hne : (children t1 (linkDir r)).isEmpty = false) :
+    linkUnregister u s = (.ok (), ⟨t1, { s.c with tocPath := alErase s.c.tocPath u }, s.next⟩) := by
+  have hhas : has s.raw (linkPath r u) = true := has_iff.mpr (rawDel_inv h1).2.1
+  have hd : (linkPath r u).dropLast = linkDir r := by simp [linkPath, linkDir]
+  have hd2 : (linkDir r).dropLast = linksP := by simp [linkDir, linksP]
+  have hne' : children t1 (linkDir r) ≠ [] := by simpa using hne
+  simp [linkUnregister, htp, hhas, hd, hd2, run_liftRaw, h1, hne']
+
+theorem linkUnregister_run2 (u : Nat) (s : St) (r : SRef) (t1 t2 : Tree) (s3 : St)
+    (htp : alGet s.c.tocPath u = some (linkPath r u))
+    (h1 : rawDel s.raw (linkPath r u) = .ok t1)
+    (he : (children t1 (linkDir r)).isEmpty = true)
+    (h2 : rawDel t1 (linkDir r) = .ok t2)
+    (h3 : schemaUnregister r ⟨t2, { s.c with tocPath := alErase s.c.tocPath u }, s.next⟩ = (.ok (), s3)) :
+    linkUnregister u s =
+      (if (children s3.raw linksP).isEmpty then liftRaw (fun t => rawDel t linksP) else pure ()) s3 := by
+  have hhas : has s.raw (linkPath r u) = true := has_iff.mpr (rawDel_inv h1).2.1
+  have hd : (linkPath r u).dropLast = linkDir r := by simp [linkPath, linkDir]
+  have hd2 : (linkDir r).dropLast = linksP := by simp [linkDir, linksP]
+  have hl : (linkDir r).getLast? = some (.ep r) := by simp [linkDir]
+  have he' : children t1 (linkDir r) = [] := by simpa using he
+  simp only [] at h3
+  simp [linkUnregister, htp, hhas, hd, hd2, hl, run_liftRaw, h1, he', h2, h3]
+
+/-- `TOCLinks.unregister(uuid)` -/
+theorem linkUnregister_spec {e : Env} (he : WFEnv e) {L : Path → SRef → Nat → Prop} {U : SRef → Prop}
+    {s : St} {p0 : Path} {r : SRef} {u : Nat}
+    (hk : KeysOK s.raw) (hr : TocRaw e L U s.raw) (hs : SchemaCache e U s.c) (hl : LinkCache L s.c)
+    (huniq : LUniq L) (hL : L p0 r u) (hUL : ∀ r, U r ↔ ∃ p u, L p r u)
+    (hUenv : ∀ r, U r → ∃ i, e.info r = some i) :
+    ∃ s', linkUnregister u s = (.ok (), s') ∧
+      TocRaw e (fun p r' u' => L p r' u' ∧ u' ≠ u) (fun r' => ∃ p u', L p r' u' ∧ u' ≠ u) s'.raw ∧
+      SchemaCache e (fun r' => ∃ p u', L p r' u' ∧ u' ≠ u) s'.c ∧
+      LinkCache (fun p r' u' => L p r' u' ∧ u' ≠ u) s'.c ∧ TocStep s s' := by
+  obtain ⟨hb, hlnk, hsch⟩ := tocRaw_iff.mp hr
+  have hUr : U r := (hUL r).mpr ⟨p0, u, hL⟩
+  obtain ⟨i, hi⟩ := hUenv r hUr
+  have htp : alGet s.c.tocPath u = some (linkPath r u) := (hl u _).mpr ⟨p0, r, hL, rfl⟩
+  have hlink : get? s.raw (linkPath r u) = some (.ds (.target p0)) := hlnk.link_some p0 r u hL
+  have h1 := rawDel_ok (t := s.raw) (p := linkPath r u) (by simp [linkPath]) (by rw [hlink]; simp)
+  set t1 := s.raw.filter (fun e => !under (linkPath r u) e.1) with ht1
+  have hk1 : KeysOK t1 := rawDel_keys h1 hk
+  have g1 : ∀ q, q ≠ [] → get? t1 q = if under (linkPath r u) q then none else get? s.raw q :=
+    fun q hq => rawDel_get? h1 q hq
+  -- nothing but the link itself lives at or below the link path
+  have hleaf : ∀ q, linkPath r u <+: q → q ≠ linkPath r u → get? s.raw q = none := by
+    intro q hpre hne
+    by_contra hc
+    obtain ⟨b, rfl⟩ := hpre
+    have := hb.shape ([.links, .ep r, .link u] ++ b) (by simpa [linkPath] using hc)
+    cases b with
+    | nil => simp at hne
+    | cons x b => cases this
+  have g1' : ∀ q, q ≠ [] → get? t1 q = if q = linkPath r u then none else get? s.raw q := by
+    intro q hq
+    rw [g1 q hq]
+    by_cases hqe : q = linkPath r u
+    · subst hqe; simp [under]
+    · rw [if_neg hqe]
+      by_cases hu : linkPath r u <+: q
+      · rw [under_true_of_prefix hu, hleaf q hu hqe]; simp
+      · rw [under_false_of_not_prefix hu]; simp
+  set c1 : Caches := { s.c with tocPath := alErase s.c.tocPath u } with hc1
+  have hlc : LinkCache (fun p r' u' => L p r' u' ∧ u' ≠ u) c1 := by
+    intro u' tp
+    show alGet (alErase s.c.tocPath u) u' = some tp ↔ _
+    rw [alGet_alErase]
+    by_cases hu : u' = u
+    · subst hu
+      simp only [if_true]
+      constructor
+      · intro h; cases h
+      · rintro ⟨p, r', ⟨-, hne⟩, -⟩; exact absurd rfl hne
+    · simp only [hu, if_false, hl u' tp]
+      constructor
+      · rintro ⟨p, r', hL', rfl⟩; exact ⟨p, r', ⟨hL', hu⟩, rfl⟩
+      · rintro ⟨p, r', ⟨hL', -⟩, rfl⟩; exact ⟨p, r', hL', rfl⟩
+  have hsc1 : SchemaCache e U c1 :=
+    ⟨hs.schemas, hs.schemas_nodup, hs.index, hs.pkginfos, hs.providers, hs.used_dom, hs.used_val⟩
+  -- remaining links of the schema
+  have hchild1 : ∀ k, get? t1 (linkDir r ++ [k]) ≠ none ↔ ∃ p u', k = .link u' ∧ L p r u' ∧ u' ≠ u := by
+    intro k
+    rw [g1' _ (by simp [linkDir])]
+    constructor
+    · intro h
+      split_ifs at h with hq
+      · exact absurd rfl h
+      · obtain ⟨u', rfl⟩ := hb.linkDir_child h
+        have hne : u' ≠ u := by rintro rfl; exact hq (by simp [linkDir, linkPath])
+        by_contra hc
+        apply h
+        have := hlnk.link_none r u' (fun ⟨p, hp⟩ => hc ⟨p, u', rfl, hp, hne⟩)
+        simpa [linkDir, linkPath] using this
+    · rintro ⟨p, u', rfl, hL', hne⟩
+      have hq : ¬ (linkDir r ++ [Key.link u'] = linkPath r u) := by simp [linkDir, linkPath, hne]
+      rw [if_neg hq]
+      have := hlnk.link_some p r u' hL'
+      simp only [linkDir, linkPath, List.cons_append, List.nil_append] at this ⊢
+      rw [this]; simp
+  have step1 : TocStep s ⟨t1, c1, s.next⟩ := TocStep.of_del h1 (by simp [linkPath]) c1
+  by_cases hother : ∃ p u', L p r u' ∧ u' ≠ u
+  · -- (i) another object of this schema is linked: only the link goes
+    obtain ⟨p1, u1, hL1, hne1⟩ := hother
+    have hne : (children t1 (linkDir r)).isEmpty = false := by
+      cases hx : (children t1 (linkDir r)).isEmpty
+      · rfl
+      · exact absurd ((children_isEmpty_iff hk1 _).mp hx (.link u1)) ((hchild1 _).mpr ⟨p1, u1, rfl, hL1, hne1⟩)
+    have hUiff : ∀ r', (∃ p u', L p r' u' ∧ u' ≠ u) ↔ U r' := by
+      intro r'
+      rw [hUL r']
+      constructor
+      · rintro ⟨p, u', h, -⟩; exact ⟨p, u', h⟩
+      · rintro ⟨p, u', h⟩
+        by_cases hu : u' = u
+        · subst hu
+          obtain ⟨-, rfl⟩ := huniq _ _ _ _ _ h hL
+          exact ⟨p1, u1, hL1, hne1⟩
+        · exact ⟨p, u', h, hu⟩
+    refine ⟨⟨t1, c1, s.next⟩, linkUnregister_run1 u s r t1 htp h1 hne, ?_, hsc1.congr hUiff, hlc, step1⟩
+    apply tocRaw_iff.mpr
+    refine ⟨hb.sub (fun q => ?_) (fun q hq => ?_), ?_, (hsch.frame (fun q hq => ?_)).congr hUiff⟩
+    · by_cases hq : q = []
+      · subst hq; right; simp
+      · rw [g1' q hq]; split_ifs <;> simp
+    · have hq0 : q ≠ [] := by rcases hq with rfl | rfl | rfl <;> simp [tocP, versionP, uuidP]
+      rw [g1' q hq0, if_neg]
+      rcases hq with rfl | rfl | rfl <;> simp [tocP, versionP, uuidP, linkPath]
+    · -- links part
+      refine ⟨?_, fun r' => ?_, ?_, ?_⟩
+      · refine Holds.intro_some ?_ ⟨p1, r, u1, hL1, hne1⟩
+        rw [g1' _ (by simp [linksP]), if_neg (by simp [linksP, linkPath])]
+        exact hlnk.links.1 ⟨p0, r, u, hL⟩
+      · refine (hlnk.ldir r').congr ?_ ?_
+        · rw [g1' _ (by simp [linkDir]), if_neg (by simp [linkDir, linkPath])]
+        · constructor
+          · rintro ⟨p, u', h, -⟩; exact ⟨p, u', h⟩
+          · rintro ⟨p, u', h⟩
+            by_cases hu : u' = u
+            · subst hu
+              obtain ⟨-, rfl⟩ := huniq _ _ _ _ _ h hL
+              exact ⟨p1, u1, hL1, hne1⟩
+            · exact ⟨p, u', h, hu⟩
+      · rintro p r' u' ⟨hL', hne'⟩
+        rw [g1' _ (by simp [linkPath]), if_neg (by simp [linkPath, hne'])]
+        exact hlnk.link_some p r' u' hL'
+      · intro r' u' hno
+        rw [g1' _ (by simp [linkPath])]
+        split_ifs with hq
+        · rfl
+        · apply hlnk.link_none r' u'
+          rintro ⟨p, hp⟩
+          by_cases hu : u' = u
+          · subst hu
+            obtain ⟨-, rfl⟩ := huniq _ _ _ _ _ hp hL
+            exact hq rfl
+          · exact hno ⟨p, hp, hu⟩
+    · rw [g1' q (by rcases hq with ⟨b, rfl⟩ | ⟨b, rfl⟩ <;> simp [schemasP, packagesP]), if_neg]
+      rcases hq with ⟨b, rfl⟩ | ⟨b, rfl⟩ <;> simp [schemasP, packagesP, linkPath]
+  · -- (ii) the schema is not in use any more
+    have he1 : (children t1 (linkDir r)).isEmpty = true := by
+      rw [children_isEmpty_iff hk1]
+      intro k
+      by_contra hc
+      obtain ⟨p, u', -, hL', hne⟩ := (hchild1 k).mp hc
+      exact hother ⟨p, u', hL', hne⟩
+    have hld1 : get? t1 (linkDir r) ≠ none := by
+      rw [g1' _ (by simp [linkDir]), if_neg (by simp [linkDir, linkPath]), (hlnk.ldir r).1 ⟨p0, u, hL⟩]; simp
+    have h2 := rawDel_ok (t := t1) (p := linkDir r) (by simp [linkDir]) hld1
+    set t2 := t1.filter (fun e => !under (linkDir r) e.1) with ht2
+    have hk2 : KeysOK t2 := rawDel_keys h2 hk1
+    have g2 : ∀ q, q ≠ [] → get? t2 q = if under (linkDir r) q then none else get? s.raw q := by
+      intro q hq
+      rw [rawDel_get? h2 q hq, g1' q hq]
+      by_cases hu : linkDir r <+: q
+      · rw [under_true_of_prefix hu]; simp
+      · rw [under_false_of_not_prefix hu]
+        have : q ≠ linkPath r u := by
+          rintro rfl; exact hu (by simp [linkDir, linkPath])
+        simp [this]
+    have step2 : TocStep s ⟨t2, c1, s.next⟩ :=
+      step1.trans (TocStep.of_del (s := ⟨t1, c1, s.next⟩) h2 (by simp [linkDir]) c1)
+    have hnot_toc : ∀ q, (schemasP <+: q ∨ packagesP <+: q) → ¬ linkDir r <+: q := by
+      rintro q (⟨b, rfl⟩ | ⟨b, rfl⟩) <;> simp [schemasP, packagesP, linkDir, List.cons_prefix_cons]
+    have hb2 : TocBase t2 := by
+      refine hb.sub (fun q => ?_) (fun q hq => ?_)
+      · by_cases hq : q = []
+        · subst hq; right; simp
+        · rw [g2 q hq]; split_ifs <;> simp
+      · have hq0 : q ≠ [] := by rcases hq with rfl | rfl | rfl <;> simp [tocP, versionP, uuidP]
+        rw [g2 q hq0, under_false_of_not_prefix]
+        · simp
+        · rcases hq with rfl | rfl | rfl <;> simp [tocP, versionP, uuidP, linkDir, List.cons_prefix_cons]
+    have hsch2 : TocSch e U t2 := by
+      refine hsch.frame (fun q hq => ?_)
+      have hq0 : q ≠ [] := by rcases hq with ⟨b, rfl⟩ | ⟨b, rfl⟩ <;> simp [schemasP, packagesP]
+      rw [g2 q hq0, under_false_of_not_prefix (hnot_toc q hq)]; simp
+    obtain ⟨s3, hrun3, hget3, hcache3, htp3, step3⟩ :=
+      schemaUnregister_spec he hi hUenv (s := ⟨t2, c1, s.next⟩) hk2 hb2 hsch2 hsc1 hUr
+    have hUiff : ∀ r', (∃ p u', L p r' u' ∧ u' ≠ u) ↔ (U r' ∧ r' ≠ r) := by
+      intro r'
+      constructor
+      · rintro ⟨p, u', h, hne⟩
+        refine ⟨(hUL r').mpr ⟨p, u', h⟩, ?_⟩
+        rintro rfl; exact hother ⟨p, u', h, hne⟩
+      · rintro ⟨hU', hne⟩
+        obtain ⟨p, u', h⟩ := (hUL r').mp hU'
+        refine ⟨p, u', h, ?_⟩
+        rintro rfl
+        obtain ⟨-, rfl⟩ := huniq _ _ _ _ _ h hL
+        exact hne rfl
+    have hsch3 : TocSch e (fun r' => ∃ p u', L p r' u' ∧ u' ≠ u) s3.raw :=
+      (tocSch_unregister hi hUenv hsch2 hget3).congr hUiff
+    have hcache3' : SchemaCache e (fun r' => ∃ p u', L p r' u' ∧ u' ≠ u) s3.c := hcache3.congr hUiff
+    have hk3 : KeysOK s3.raw := step3.keys hk2
+    -- lookups below `links/` after the schema part was cleaned up
+    have g3 : ∀ q, linksP <+: q → get? s3.raw q = if under (linkDir r) q then none else get? s.raw q := by
+      intro q hq
+      have hq0 : q ≠ [] := by obtain ⟨b, rfl⟩ := hq; simp [linksP]
+      rw [(hget3 q hq0).2 ?_]
+      · exact g2 q hq0
+      · intro hd
+        obtain ⟨b, rfl⟩ := hq
+        rcases unregDel_toc hd with h | h <;> simp [schemasP, packagesP, linksP, List.cons_prefix_cons] at h
+    have hsub3 : ∀ q, get? s3.raw q = none ∨ get? s3.raw q = get? s.raw q := by
+      intro q
+      by_cases hq : q = []
+      · subst hq; right; simp
+      · by_cases hd : UnregDel e (fun r' => U r' ∧ r' ≠ r) r i.pkg q
+        · left; exact (hget3 q hq).1 hd
+        · rw [(hget3 q hq).2 hd, g2 q hq]; split_ifs <;> simp
+    have hkeep3 : ∀ q, q = tocP ∨ q = versionP ∨ q = uuidP → get? s3.raw q = get? s.raw q := by
+      intro q hq
+      have hq0 : q ≠ [] := by rcases hq with rfl | rfl | rfl <;> simp [tocP, versionP, uuidP]
+      rw [(hget3 q hq0).2 ?_, g2 q hq0, under_false_of_not_prefix]
+      · simp
+      · rcases hq with rfl | rfl | rfl <;> simp [tocP, versionP, uuidP, linkDir, List.cons_prefix_cons]
+      · intro hd
+        rcases unregDel_toc hd with h | h <;>
+          rcases hq with rfl | rfl | rfl <;>
+          simp [schemasP, packagesP, tocP, versionP, uuidP, List.cons_prefix_cons] at h
+    have hlc3 : LinkCache (fun p r' u' => L p r' u' ∧ u' ≠ u) s3.c := by
+      intro u' tp; rw [htp3]; exact hlc u' tp
+    -- the links part, as long as the `links` group itself is kept
+    have hldir3 : ∀ r', Holds (get? s3.raw (linkDir r')) (∃ p u', L p r' u' ∧ u' ≠ u) .grp := by
+      intro r'
+      rw [g3 _ (by simp [linksP, linkDir])]
+      by_cases hrr : r' = r
+      · subst hrr
+        rw [under_true_of_prefix (List.prefix_refl _)]
+        exact ⟨fun h => absurd h hother, fun _ => rfl⟩
+      · have hrr' : ¬ r = r' := fun h => hrr h.symm
+        rw [under_false_of_not_prefix (by simp [linkDir, List.cons_prefix_cons, hrr'])]
+        refine (hlnk.ldir r').congr (by simp) ?_
+        constructor
+        · rintro ⟨p, u', h, -⟩; exact ⟨p, u', h⟩
+        · rintro ⟨p, u', h⟩
+          refine ⟨p, u', h, ?_⟩
+          rintro rfl
+          obtain ⟨-, rfl⟩ := huniq _ _ _ _ _ h hL
+          exact hrr rfl
+    have hlsome3 : ∀ p r' u', L p r' u' ∧ u' ≠ u → get? s3.raw (linkPath r' u') = some (.ds (.target p)) := by
+      rintro p r' u' ⟨hL', hne⟩
+      have hrr : ¬ r = r' := by rintro rfl; exact hother ⟨p, u', hL', hne⟩
+      rw [g3 _ (by simp [linksP, linkPath]), under_false_of_not_prefix (by simp [linkDir, linkPath, List.cons_prefix_cons, hrr])]
+      simpa using hlnk.link_some p r' u' hL'
+    have hlnone3 : ∀ r' u', (¬ ∃ p, L p r' u' ∧ u' ≠ u) → get? s3.raw (linkPath r' u') = none := by
+      intro r' u' hno
+      rw [g3 _ (by simp [linksP, linkPath])]
+      split_ifs with hu
+      · rfl
+      · apply hlnk.link_none r' u'
+        rintro ⟨p, hp⟩
+        by_cases huu : u' = u
+        · subst huu
+          obtain ⟨-, rfl⟩ := huniq _ _ _ _ _ hp hL
+          exact hu (under_true_of_prefix (by simp [linkDir, linkPath]))
+        · exact hno ⟨p, hp, huu⟩
+    have hlinks3 : get? s3.raw linksP = some .grp := by
+      rw [g3 _ (List.prefix_refl _), under_false_of_not_prefix (by simp [linkDir, linksP, List.cons_prefix_cons])]
+      simpa using hlnk.links.1 ⟨p0, r, u, hL⟩
+    have hlchild3 : ∀ k, get? s3.raw (linksP ++ [k]) ≠ none ↔ ∃ r', k = .ep r' ∧ ∃ p u', L p r' u' ∧ u' ≠ u := by
+      intro k
+      constructor
+      · intro h
+        have h' : get? s.raw (linksP ++ [k]) ≠ none := by
+          rcases hsub3 (linksP ++ [k]) with hx | hx
+          · exact absurd hx h
+          · rw [← hx]; exact h
+        obtain ⟨r', rfl⟩ := hb.link_child h'
+        refine ⟨r', rfl, ?_⟩
+        by_contra hc
+        have := (hldir3 r').2 hc
+        simp only [linkDir, linksP, List.cons_append, List.nil_append] at this h
+        exact h this
+      · rintro ⟨r', rfl, hex⟩
+        have := (hldir3 r').1 hex
+        simp only [linkDir, linksP, List.cons_append, List.nil_append] at this ⊢
+        rw [this]; simp
+    have hrun : linkUnregister u s =
+        (if (children s3.raw linksP).isEmpty then liftRaw (fun t => rawDel t linksP) else pure ()) s3 :=
+      linkUnregister_run2 u s r t1 t2 s3 htp h1 he1 h2 hrun3
+    by_cases hex : ∃ p r' u', L p r' u' ∧ u' ≠ u
+    · -- other schemas are still linked
+      obtain ⟨p1, r1, u1, hL1⟩ := hex
+      have hne : (children s3.raw linksP).isEmpty = false := by
+        cases hx : (children s3.raw linksP).isEmpty
+        · rfl
+        · exact absurd ((children_isEmpty_iff hk3 _).mp hx (.ep r1)) ((hlchild3 _).mpr ⟨r1, rfl, p1, u1, hL1⟩)
+      refine ⟨s3, by rw [hrun]; simp [hne], ?_, hcache3', hlc3, step2.trans step3⟩
+      apply tocRaw_iff.mpr
+      exact ⟨hb.sub hsub3 hkeep3, ⟨Holds.intro_some hlinks3 ⟨p1, r1, u1, hL1⟩, hldir3, hlsome3, hlnone3⟩, hsch3⟩
+    · -- nothing is linked any more: the `links` group goes
+      have hemp : (children s3.raw linksP).isEmpty = true := by
+        rw [children_isEmpty_iff hk3]
+        intro k
+        by_contra hc
+        obtain ⟨r', -, p, u', h⟩ := (hlchild3 k).mp hc
+        exact hex ⟨p, r', u', h⟩
+      have h4 := rawDel_ok (t := s3.raw) (p := linksP) (by simp [linksP]) (by rw [hlinks3]; simp)
+      set t4 := s3.raw.filter (fun e => !under linksP e.1) with ht4
+      have g4 : ∀ q, q ≠ [] → get? t4 q = if under linksP q then none else get? s3.raw q :=
+        fun q hq => rawDel_get? h4 q hq
+      refine ⟨⟨t4, s3.c, s3.next⟩, by rw [hrun]; simp [hemp, run_liftRaw, h4], ?_, hcache3', hlc3,
+        (step2.trans step3).trans (TocStep.of_del (s := s3) h4 (by simp [linksP]) s3.c)⟩
+      apply tocRaw_iff.mpr
+      refine ⟨(hb.sub hsub3 hkeep3).sub (fun q => ?_) (fun q hq => ?_), ?_, hsch3.frame (fun q hq => ?_)⟩
+      · by_cases hq : q = []
+        · subst hq; right; simp
+        · rw [g4 q hq]; split_ifs <;> simp
+      · have hq0 : q ≠ [] := by rcases hq with rfl | rfl | rfl <;> simp [tocP, versionP, uuidP]
+        rw [g4 q hq0, under_false_of_not_prefix]
+        · simp
+        · rcases hq with rfl | rfl | rfl <;> simp [tocP, versionP, uuidP, linksP, List.cons_prefix_cons]
+      · refine ⟨⟨fun h => absurd h hex, fun _ => ?_⟩, fun r' => ⟨fun ⟨p, u', h⟩ => absurd ⟨p, r', u', h⟩ hex, fun _ => ?_⟩,
+          fun p r' u' h => absurd ⟨p, r', u', h⟩ hex, fun r' u' _ => ?_⟩
+        · rw [g4 _ (by simp [linksP]), under_true_of_prefix (List.prefix_refl _)]; simp
+        · rw [g4 _ (by simp [linkDir]), under_true_of_prefix (by simp [linksP, linkDir])]; simp
+        · rw [g4 _ (by simp [linkPath]), under_true_of_prefix (by simp [linksP, linkPath])]; simp
+      · have hq0 : q ≠ [] := by rcases hq with ⟨b, rfl⟩ | ⟨b, rfl⟩ <;> simp [schemasP, packagesP]
+        rw [g4 q hq0, under_false_of_not_prefix]
+        · simp
+        · rcases hq with ⟨b, rfl⟩ | ⟨b, rfl⟩ <;> simp [schemasP, packagesP, linksP, List.cons_prefix_cons]
 
 end MetadorModel.Container
